@@ -78,3 +78,8 @@ chk("C02", "E1 program explorer + rewrite tracer",
     "For every program of the bounded E1 space (incl. shared subtrees and multi-leaf pools) the raw-lowered, simplified+lowered and fused forms are executed as they are and compared with NumPy and each other; every (before, after) pair produced by any _simplify_down/_simplify_up/_lower hook during optimization is executed by raw lowering and must denote the same array; for fused roots every output block must read the same external input blocks as in the unfused graph. Evidence lists fire counts per rule and the rules that never fired.",
     "Trusted: the 'before' expression evaluated by lowering without simplification; NumPy for phase values.",
     "DESIGN.md §4 C02")
+chk("C05", "E1 program explorer + E4 follow-on histories",
+    "bounded exhaustive program exploration; every entry point executed on every program, plus all length-2 histories (entry point, follow-on op)",
+    "For every program root of the bounded space all ten entry points (x.compute, dask.compute alone / with a sibling sharing the subtree, x.persist, dask.persist alone / with sibling, dask.optimize, x.optimize, to_delayed, np.asarray) are executed and compared with NumPy; returned collections must keep name/keys/chunks/dtype; each of 12 follow-on ops applied to each returned collection must equal NumPy.",
+    "Trusted: synchronous scheduler; NumPy reference.",
+    "DESIGN.md §4 C05")
